@@ -132,4 +132,92 @@ theorem C18_distid_pinned_witness :
       (read false false (write o [] m)).toOption.map (fun m' => m'.deps.map (·.distId)) = some [none] := by
   decide
 
+/-! ## tag lists -/
+
+/-- **C18, tag lists: same entries, in sorted order.**  A tagged-release list written by `TaggedProductList.write`
+(with or without `flavor=`) and read by a reader of flavor `F` yields, for the products in *sorted* order, exactly
+the entries whose flavor is `F` or `generic` (which stands for `F`), each with its version and extra words. -/
+theorem C18_taglist_roundtrip (t : TagList) (fa : Option Str) (F : Str) (comments : List Str)
+    (htag : ∀ c ∈ t.tag, c ≠ 10 ∧ c ≠ 13)
+    (hc : ∀ l ∈ comments, isBlankOrComment l = true ∧ ∀ c ∈ l, c ≠ 10 ∧ c ≠ 13)
+    (hnd : t.products.Nodup)
+    (hok : ∀ p ∈ t.products, TagEntryOk fa p ((assocGet t.info p).getD [])) :
+    ∃ r, (TagList.empty t.tag (some F)).read (t.write fa comments) = .ok r ∧
+      r.getProducts = (sortStrs t.products).filterMap (fun p => keepEntry fa F p ((assocGet t.info p).getD [])) := by
+  have hperm := sortStrs_perm t.products
+  have hmem : ∀ p ∈ sortStrs t.products, p ∈ t.products := fun p hp => hperm.mem_iff.mp hp
+  have hchars : ∀ l ∈ t.writeLines fa comments, ∀ c ∈ l, c ≠ 10 ∧ c ≠ 13 := by
+    intro l hl
+    simp only [TagList.writeLines, List.mem_cons, List.mem_append, List.mem_map] at hl
+    rcases hl with (rfl | hl) | ⟨p, hp, rfl⟩
+    · intro c hcc
+      simp only [tagHeader, List.mem_append] at hcc
+      rcases hcc with ((((h | h) | h) | h) | h) | h
+      · revert c; decide
+      · exact htag c h
+      · revert c; decide
+      · revert c; decide
+      · revert c; decide
+      · revert c; decide
+    · exact (hc l hl).2
+    · exact tagLine_no_nl fa p _ (hok p (hmem p hp))
+  have hl : lines (univNewlines (t.write fa comments)) = t.writeLines fa comments := by
+    unfold TagList.write
+    exact lines_univ_unlines _ (fun l hl c hcl => (hchars l hl c hcl).1) (fun l hl c hcl => (hchars l hl c hcl).2)
+  have hinv : TagInv (TagList.empty t.tag (some F)) F := ⟨rfl, rfl, List.nodup_nil⟩
+  obtain ⟨r, hr, hg⟩ := tagEntries_lines fa F (fun p => (assocGet t.info p).getD []) (sortStrs t.products)
+    (TagList.empty t.tag (some F)) hinv (hperm.nodup_iff.mpr hnd) (fun p _ => by simp [TagList.empty])
+    (fun p hp => hok p (hmem p hp))
+  refine ⟨r, ?_, ?_⟩
+  · have hread := tagRead_of_lines (TagList.empty t.tag (some F)) (t.write fa comments) (tagHeader t.tag)
+      (comments ++ (sortStrs t.products).map fun p => tagLine fa p ((assocGet t.info p).getD []))
+      (by rw [hl]; rfl) (parseTagHeader_tagHeader t.tag)
+    rw [hread, tagEntries_comments _ _ _ (fun l hl => (hc l hl).1)]
+    exact hr
+  · rw [hg]; simp [TagList.getProducts, TagList.empty]
+
+/-- the same *set* of entries as the list held for that reader (in some order) -/
+theorem C18_taglist_same_entries (t : TagList) (fa : Option Str) (F : Str) (comments : List Str)
+    (htag : ∀ c ∈ t.tag, c ≠ 10 ∧ c ≠ 13)
+    (hc : ∀ l ∈ comments, isBlankOrComment l = true ∧ ∀ c ∈ l, c ≠ 10 ∧ c ≠ 13)
+    (hnd : t.products.Nodup)
+    (hok : ∀ p ∈ t.products, TagEntryOk fa p ((assocGet t.info p).getD [])) :
+    ∃ r, (TagList.empty t.tag (some F)).read (t.write fa comments) = .ok r ∧
+      r.getProducts.Perm (t.products.filterMap (fun p => keepEntry fa F p ((assocGet t.info p).getD []))) := by
+  obtain ⟨r, hr, hg⟩ := C18_taglist_roundtrip t fa F comments htag hc hnd hok
+  exact ⟨r, hr, hg ▸ (sortStrs_perm t.products).filterMap _⟩
+
+/-- **"same order", partial** — hypothesis: the products were added in sorted order. -/
+theorem C18_taglist_order_partial (t : TagList) (fa : Option Str) (F : Str) (comments : List Str)
+    (htag : ∀ c ∈ t.tag, c ≠ 10 ∧ c ≠ 13)
+    (hc : ∀ l ∈ comments, isBlankOrComment l = true ∧ ∀ c ∈ l, c ≠ 10 ∧ c ≠ 13)
+    (hnd : t.products.Nodup)
+    (hok : ∀ p ∈ t.products, TagEntryOk fa p ((assocGet t.info p).getD []))
+    (hsorted : SortedAdj t.products) :
+    ∃ r, (TagList.empty t.tag (some F)).read (t.write fa comments) = .ok r ∧
+      r.getProducts = t.products.filterMap (fun p => keepEntry fa F p ((assocGet t.info p).getD [])) := by
+  obtain ⟨r, hr, hg⟩ := C18_taglist_roundtrip t fa F comments htag hc hnd hok
+  exact ⟨r, hr, by rw [hg, sortStrs_sorted_id _ hsorted]⟩
+
+/-- Non-vacuity (sorted insertion, a `generic` entry, an entry of another flavor that the reader drops). -/
+example :
+    let t := (((TagList.empty (Str.ofString "current") (some (Str.ofString "Linux"))).addProduct (Str.ofString "afw")
+      (Str.ofString "1.0") none []).addProduct (Str.ofString "boost") (Str.ofString "2") (some (Str.ofString "generic"))
+      [Str.ofString "x"]).addProduct (Str.ofString "cfitsio") (Str.ofString "3") (some (Str.ofString "DarwinX86")) []
+    ((TagList.empty (Str.ofString "current") (some (Str.ofString "Linux"))).read (t.write none [])).toOption.map
+        TagList.getProducts =
+      some [[Str.ofString "afw", Str.ofString "Linux", Str.ofString "1.0"],
+            [Str.ofString "boost", Str.ofString "Linux", Str.ofString "2", Str.ofString "x"]] := by
+  decide
+
+/-- **D14 (negation witness): the unrestricted "same order" clause is false** — `python` added before `afw` comes
+back after it. -/
+theorem C18_taglist_order_witness :
+    let t := ((TagList.empty (Str.ofString "current") (some (Str.ofString "Linux"))).addProduct (Str.ofString "python")
+      (Str.ofString "2.6") none []).addProduct (Str.ofString "afw") (Str.ofString "1.0") none []
+    t.getProducts.map (·.head?) = [some (Str.ofString "python"), some (Str.ofString "afw")] ∧
+      ((TagList.empty (Str.ofString "current") (some (Str.ofString "Linux"))).read (t.write none [])).toOption.map
+        (fun r => r.getProducts.map (·.head?)) = some [some (Str.ofString "afw"), some (Str.ofString "python")] := by
+  decide
+
 end EupsModel.C18
